@@ -45,6 +45,9 @@ FIELDS = {
     ("AuxDataContainer", "aux_data"): ("aux_data", "dict:val", None),
     ("$IntervalTree", "$content"): ("$tree_content", "set", None),
     ("LazyIntervalTree", "_interval_index"): ("LIT._interval_index", "val", "$IntervalTree"),
+    # ByteInterval.size is a property over the indexed attribute _indexed_size (stored as __indexed_size) since the
+    # fix for F-C19-1; both spellings denote the logical field "_size"
+    ("ByteInterval", "__indexed_size"): ("_size", "val", None),
 }
 
 # Region R: the internals of the lazily maintained indexes.  Lookups may update them (benign: the
@@ -424,6 +427,13 @@ class Schema:
             return sv_none()
         if name == "int.__index__":
             return args[0]
+        if name == "type":
+            # type(x): compared by identity only; represented by the class id
+            a = args[0]
+            if a.k in ("ref", "val"):
+                r = eng.as_ref(a, st, "argument of type()")
+                return SV("int", z3.Select(eng.field_array(st, "$kind"), r))
+            raise Unsupported("type() of %s" % a.k)
         if name == "super":
             return SV("super", x=(eng.cur_fn.cls, st.env.get(eng.cur_fn.params()[0][0])))
         if name.startswith("intervaltree.Interval") or name == "Interval":
@@ -544,6 +554,38 @@ class Schema:
                 st.define(z3.ForAll([x], z3.Select(u, x) == z3.Or(z3.Select(cur, x), z3.Select(other, x))))
                 cur = u
             self._wb(obj, sv_set(cur), st)
+            return sv_none()
+        if name == "clear":
+            self._wb(obj, SV("set", EmptySet, cls=obj.cls), st)
+            return sv_none()
+        if name == "remove":
+            x = to_val(args[0])
+            s2 = st.fork()
+            s2.assume(z3.Not(z3.Select(obj.t, x)))
+            eng.exc_paths.append((s2, Exc("KeyError")))
+            st.assume(z3.Select(obj.t, x))
+            eng.card_axioms_store(st, obj.t, x, False)
+            self._wb(obj, SV("set", z3.Store(obj.t, x, False), cls=obj.cls), st)
+            return sv_none()
+        if name == "pop":
+            s2 = st.fork()
+            s2.assume(obj.t == EmptySet)
+            eng.exc_paths.append((s2, Exc("KeyError")))
+            st.assume(obj.t != EmptySet)
+            x = fresh("popped", Val)
+            st.define(z3.Select(obj.t, x))
+            eng.card_axioms_store(st, obj.t, x, False)
+            self._wb(obj, SV("set", z3.Store(obj.t, x, False), cls=obj.cls), st)
+            return eng.schema.refine(SV("val", x, cls=obj.cls))
+        if name == "copy":
+            return SV("set", obj.t, cls=obj.cls)
+        if name in ("difference_update", "intersection_update"):
+            other = eng.as_set(args[0], st).t
+            u = fresh("U", SetSort)
+            x = fresh("x", Val)
+            keep = z3.Not(z3.Select(other, x)) if name == "difference_update" else z3.Select(other, x)
+            st.define(z3.ForAll([x], z3.Select(u, x) == z3.And(z3.Select(obj.t, x), keep)))
+            self._wb(obj, SV("set", u, cls=obj.cls), st)
             return sv_none()
         if name == "union":
             cur = obj.t
